@@ -176,26 +176,23 @@ def skolemize_goal(goal, pc, max_inst=120, extra_terms=()):
     import os
     if os.environ.get("VERIF_NO_SKOLEM"):
         return goal, []
-    parts = _conjuncts(goal)
-    if not any((z3.is_quantifier(p) and p.is_forall()) or (z3.is_or(p) and any(z3.is_quantifier(d) and d.is_forall() for d in p.children()))
-               for p in parts):
-        return goal, []
     sks = []
-    new_parts = []
-    def sk_one(p):
-        consts = [so.fresh("sk", p.var_sort(k)) for k in range(p.num_vars())]
-        sks.extend(consts)
-        return z3.substitute_vars(p.body(), *reversed(consts))
 
-    for p in parts:
-        if z3.is_quantifier(p) and p.is_forall() and p.num_vars() <= 2:
-            new_parts.append(sk_one(p))
-        elif z3.is_or(p) and sum(1 for d in p.children() if z3.is_quantifier(d) and d.is_forall() and d.num_vars() <= 2) == 1:
-            # (forall x. P(x)) or B  ==  forall x. (P(x) or B)   (x not free in B)
-            new_parts.append(z3.Or([sk_one(d) if (z3.is_quantifier(d) and d.is_forall() and d.num_vars() <= 2) else d for d in p.children()]))
-        else:
-            new_parts.append(p)
-    if not sks and not (extra_terms and any(z3.is_quantifier(p) or z3.is_or(p) for p in parts)):
+    def pull(t, depth=0):
+        """skolemise universals in positive positions (under And / Or only): (forall x.P) or B == forall x.(P or B), x fresh"""
+        if z3.is_quantifier(t) and t.is_forall() and t.num_vars() <= 2:
+            consts = [so.fresh("sk", t.var_sort(k)) for k in range(t.num_vars())]
+            sks.extend(consts)
+            return z3.substitute_vars(t.body(), *reversed(consts))
+        if depth < 4 and z3.is_and(t):
+            return z3.And([pull(c, depth + 1) for c in t.children()])
+        if depth < 4 and z3.is_or(t):
+            return z3.Or([pull(c, depth + 1) for c in t.children()])
+        return t
+
+    parts = _conjuncts(goal)
+    new_parts = [pull(p) for p in parts]
+    if not sks and not extra_terms and not any(z3.is_quantifier(c) for h in pc[-40:] for c in _conjuncts(h)):
         return goal, []
     # the current loop indexes are further integer terms worth instantiating at (the element the body works on)
     seen_ids = set()
@@ -206,6 +203,12 @@ def skolemize_goal(goal, pc, max_inst=120, extra_terms=()):
     insts = []
     for h in pc:
         for c in _conjuncts(h):
+            if z3.is_quantifier(c) and c.is_forall() and c.num_vars() == 2 and c.var_sort(0) == z3.IntSort() and c.var_sort(1) == z3.IntSort():
+                ints = [t for t in sks if t.sort() == z3.IntSort()][:4]
+                for a in ints:
+                    for b in ints:
+                        if not a.eq(b) and len(insts) < max_inst:
+                            insts.append(z3.substitute_vars(c.body(), a, b))
             if z3.is_quantifier(c) and c.is_forall() and c.num_vars() == 1:
                 for sk in sks:
                     if sk.sort() != c.var_sort(0):
@@ -213,6 +216,13 @@ def skolemize_goal(goal, pc, max_inst=120, extra_terms=()):
                     insts.append(z3.substitute_vars(c.body(), sk))
                     if len(insts) >= max_inst:
                         break
+    # small literal indexes: facts about short literal sequences ([a, b, c] built by the code) are needed at 0, 1, 2
+    if not os.environ.get("VERIF_NO_LITIDX"):
+        for h in pc[-40:]:
+            for c in _conjuncts(h):
+                if z3.is_quantifier(c) and c.is_forall() and c.num_vars() == 1 and c.var_sort(0) == z3.IntSort() and len(insts) < max_inst:
+                    for k in (0, 1, 2):
+                        insts.append(z3.substitute_vars(c.body(), z3.IntVal(k)))
     # second round: positions of keys (dict_pos(m, k), ground) produced by the first round are indexes worth instantiating at
     pos_terms = {}
     for t in insts:
@@ -349,6 +359,7 @@ class Engine:
             for nm, lv in self.st.frames[-1].locals.items():
                 if nm.startswith("_i") and isinstance(lv, SV):
                     idx.append(z3.simplify(Val.i(lv.term)))
+                    idx.append(z3.simplify(Val.i(lv.term) - 1))     # the index the just-finished iteration worked on
         goal, insts = skolemize_goal(goal, self.st.pc, extra_terms=idx)
         self.obligations.append(Obligation(name, list(self.st.pc) + insts, goal, kind, line, extra))
 
